@@ -1,0 +1,125 @@
+// MIT License
+//
+// Copyright (c) 2022-2026 GoAkt Team
+//
+// Permission is hereby granted, free of charge, to any person obtaining a copy
+// of this software and associated documentation files (the "Software"), to deal
+// in the Software without restriction, including without limitation the rights
+// to use, copy, modify, merge, publish, distribute, sublicense, and/or sell
+// copies of the Software, and to permit persons to whom the Software is
+// furnished to do so, subject to the following conditions:
+//
+// The above copyright notice and this permission notice shall be included in all
+// copies or substantial portions of the Software.
+//
+// THE SOFTWARE IS PROVIDED "AS IS", WITHOUT WARRANTY OF ANY KIND, EXPRESS OR
+// IMPLIED, INCLUDING BUT NOT LIMITED TO THE WARRANTIES OF MERCHANTABILITY,
+// FITNESS FOR A PARTICULAR PURPOSE AND NONINFRINGEMENT. IN NO EVENT SHALL THE
+// AUTHORS OR COPYRIGHT HOLDERS BE LIABLE FOR ANY CLAIM, DAMAGES OR OTHER
+// LIABILITY, WHETHER IN AN ACTION OF CONTRACT, TORT OR OTHERWISE, ARISING FROM,
+// OUT OF OR IN CONNECTION WITH THE SOFTWARE OR THE USE OR OTHER DEALINGS IN THE
+// SOFTWARE.
+
+//go:build verif
+
+package actor
+
+import "sync/atomic"
+
+// Verification harness only: projections of the pooled-object state used by
+// the Ask paths (context pool, reply-channel pool, the responseClosed flag).
+
+// VerifDrainPools empties the ReceiveContext pool and the reply-channel pool
+// so that the next put is what the next get returns. It reports how many
+// objects were removed.
+func VerifDrainPools() (contexts, channels int) {
+	for {
+		select {
+		case <-contextCh:
+			contexts++
+			continue
+		default:
+		}
+		break
+	}
+	for {
+		select {
+		case <-responseCh:
+			channels++
+			continue
+		default:
+		}
+		break
+	}
+	return contexts, channels
+}
+
+// VerifPoolSnapshot returns the current content of both pools in FIFO order.
+// The objects are taken out and put back, so it must only be called while no
+// other goroutine uses the pools (all logical threads parked).
+func VerifPoolSnapshot() (contexts []*ReceiveContext, channels []chan any) {
+	for {
+		select {
+		case c := <-contextCh:
+			contexts = append(contexts, c)
+			continue
+		default:
+		}
+		break
+	}
+	for _, c := range contexts {
+		contextCh <- c
+	}
+	for {
+		select {
+		case c := <-responseCh:
+			channels = append(channels, c)
+			continue
+		default:
+		}
+		break
+	}
+	for _, c := range channels {
+		responseCh <- c
+	}
+	return contexts, channels
+}
+
+// VerifResponseClosed reports the responseClosed flag of rc.
+func VerifResponseClosed(rc *ReceiveContext) bool { return rc.responseClosed.Load() }
+
+// VerifResponseChannel returns the reply channel currently attached to rc.
+func VerifResponseChannel(rc *ReceiveContext) chan any { return rc.response }
+
+// VerifMailboxContexts returns the sentinel of pid's user (or system) mailbox
+// and the contexts linked behind it, oldest first. ok is false when that
+// mailbox is not an UnboundedMailbox. Call only while the actor is quiescent.
+func VerifMailboxContexts(pid *PID, system bool) (sentinel *ReceiveContext, linked []*ReceiveContext, ok bool) {
+	mb := pid.mailbox
+	if system {
+		mb = pid.systemMailbox
+	}
+	box, ok := mb.(*UnboundedMailbox)
+	if !ok {
+		return nil, nil, false
+	}
+	sentinel = (*ReceiveContext)(atomic.LoadPointer(&box.head))
+	for cur := (*ReceiveContext)(atomic.LoadPointer(&sentinel.next)); cur != nil && len(linked) < 4096; cur = (*ReceiveContext)(atomic.LoadPointer(&cur.next)) {
+		linked = append(linked, cur)
+	}
+	return sentinel, linked, true
+}
+
+// VerifDeadletterPID returns the dead-letter actor of sys.
+func VerifDeadletterPID(sys ActorSystem) *PID {
+	if x, ok := sys.(*actorSystem); ok {
+		return x.getDeadletter()
+	}
+	return nil
+}
+
+// VerifIdleOf reports whether no worker owns pid, it is not queued for a turn
+// and both of its mailboxes are empty.
+func VerifIdleOf(pid *PID) bool {
+	return pid.schedState.Load() == dispatchIdle && pid.mailbox.IsEmpty() && pid.systemMailbox.IsEmpty()
+}
